@@ -19,7 +19,9 @@ LEVEL = "proof"
 
 def recordings(tier):
     rs = [P.spec([[0, 150], [150, 130]], name="gapped-100-per-file-150+130"),
-          P.spec([[0, 300000], [300000, 260000]], srn=200000, continuous=1, name="continuous-200k-per-file")]
+          P.spec([[0, 300000], [300000, 260000]], srn=200000, continuous=1, name="continuous-200k-per-file"),
+          # three calls, one file each: a later call could succeed after an earlier one failed (stickiness)
+          P.spec([[0, 100], [100, 100], [200, 100]], name="gapped-3-calls-1-file-each")]
     if tier == "thorough":
         rs += [P.spec([[30, 100], [250, 10], [260, 350]], name="gapped-midfile-start-and-gap"),
                P.spec([[0, 64], [64, 64], [128, 64]], srn=64, subdir_cadence=1, nsub=2, dtype="f4",
@@ -214,12 +216,13 @@ def one_recording(res, sp):
     if b.ops is None or b.vp is None:
         return
     points = [(b, n, e, p) for n in range(1, b.n + 1) for e in (P.ENOSPC, P.EIO) for p in (0, 1)]
-    if res.tier == "quick" and len(points) > 170:
-        # every operation once with ENOSPC, the other combinations on a random half
+    budget = 90 if sp["name"] == "gapped-3-calls-1-file-each" else 170
+    if res.tier == "quick" and len(points) > budget:
+        # every operation once with ENOSPC, the other combinations sampled
         keep = [x for x in points if x[2] == P.ENOSPC and x[3] == 0]
         rest = [x for x in points if not (x[2] == P.ENOSPC and x[3] == 0)]
         res.rng.shuffle(rest)
-        points = keep + rest[:170 - len(keep)]
+        points = keep + rest[:budget - len(keep)]
     cases = []
     for (_b, n, e, p) in points:
         for vc in (0, 1):
@@ -258,8 +261,8 @@ def run(res):
     res.rule = ("one case = one single-fault schedule (recording, failing operation number, ENOSPC|EIO, once|persistent) "
                 "run on the real writer under the interposer; all distinct, all non-trivial; compared with the model's "
                 "prediction under both close-path variants and with the property's oracle (bad final file, earlier files "
-                "intact, silent loss, stickiness); quick: every operation of 2 recordings with ENOSPC once, the other "
-                "errno/persistence combinations sampled to 170 runs per recording; thorough: all combinations, 6 recordings")
+                "intact, silent loss, stickiness); quick: every operation of 3 recordings with ENOSPC once, the other "
+                "errno/persistence combinations sampled (170/170/90 runs); thorough: all combinations, 7 recordings")
     for sp in recordings(res.tier):
         one_recording(res, sp)
     res.assumptions += [
